@@ -52,4 +52,22 @@ example : get [[(7, none)], [(7, some 1)]] 7 (some 9) = none
     ∧ getitem [[(7, none)], [(7, some 1)]] 7 = some none
     ∧ contains [[(7, none)], [(7, some 1)]] 7 = true := by decide
 
+/-- Several scopes alive at once (an outer scope may be written while inner ones exist): from
+every object `i` of every forest, all lookup forms return the innermost binding of the chain as it
+is at the time of the lookup — nothing but the current local scopes of `i` and its ancestors
+enters the answer. -/
+theorem forest_lookup_forms (f : Forest) (i k : Nat) (d : Val) :
+    getitem (chainOf f f.length i) k = lookup (chainOf f f.length i) k
+    ∧ contains (chainOf f f.length i) k = (lookup (chainOf f f.length i) k).isSome
+    ∧ get (chainOf f f.length i) k d = (lookup (chainOf f f.length i) k).getD d :=
+  ⟨getitem_eq_lookup _ _, contains_eq_lookup _ _, get_eq_lookup _ _ _⟩
+
+/-- non-vacuity: grandchild 2 of root 0 sees the root's *current* binding after a rebind 1 → 2,
+and an intermediate scope binding the key later shadows it. -/
+example :
+    getitem (chainOf [(none, [(0, some 1)]), (some 0, []), (some 1, [])] 3 2) 0 = some (some 1)
+    ∧ getitem (chainOf [(none, [(0, some 2)]), (some 0, []), (some 1, [])] 3 2) 0 = some (some 2)
+    ∧ getitem (chainOf [(none, [(0, some 2)]), (some 0, [(0, none)]), (some 1, [])] 3 2) 0 = some none := by
+  decide
+
 end Xdsl.ScopedDict
